@@ -18,7 +18,7 @@ LEVEL_NOTE = "Trusted: panic = exit status 101 / abort signal / 'panicked at' on
 RULE = ("case = 1-3 corpus files (tests/rust_data, src) each with 1-5 seeded mutations (some left intact), one intact sibling with a "
         "missing reference, optional empty / >1 MiB file, mode check|edit, optional fail on OPEN_R/READ of one source file. "
         "Non-trivial = at least one mutated or faulted file; distinct = case index.")
-PROBES = ["unicode_messages", "invalid_utf8_file", "read_fault_injected", "unreadable_file_skipped", "empty_file", "large_file", "multibyte_before_bang",
+PROBES = ["unicode_padding", "unicode_messages", "invalid_utf8_file", "read_fault_injected", "unreadable_file_skipped", "empty_file", "large_file", "multibyte_before_bang",
           "edit_mode", "check_mode"]
 ASSUMPTIONS = ["files <= ~1.5 MiB count as 'ordinary shape' for the 20 s bound"]
 DEADLINE = {"quick": 200, "thorough": 3300}
@@ -84,6 +84,13 @@ def gen(rng):
     if rng.random() < 0.5:
         files["proj/src/uni_msgs.rs"] = unicode_statements(rng, structured)
         tags.add("unicode_messages")
+    if rng.random() < 0.2:
+        # a larger file whose padding is mostly multi-byte text: a 2-4 byte character sits at every distance (8 KiB, 64 KiB,
+        # ...) before some statement
+        segs = world.Gen(rng).source_file(structured, rng.randrange(2, 6), rng.choice(["k8", "k64", "k64", "k160"]),
+                                          [None] * 5, unicode_p=0.9)
+        files["proj/src/uni_pad.rs"] = world.segs_bytes(segs)
+        tags.add("unicode_padding")
     sib = ("fn sibling() {\n    %s!(\"mkSIBq intact sibling\");\n}\n" % "info").encode()
     wm_extra = {p: {"t": "f", "mode": 0o644, "data": d} for p, d in files.items()}
     wm_extra[SIB] = {"t": "f", "mode": 0o644, "data": sib}
